@@ -19,7 +19,10 @@ Inductive case :=
 (* one sidecar scenario (listener port, registry services, VirtualServices oldest first) with
    the virtual hosts observed from the real BuildSidecarOutboundVirtualHosts and a group of requests *)
 | VHosts (id : N) (c : ctx) (svcs : list (string * list N)) (vss : list (list string * list rule))
-         (observed : list vhost) (qs : list request)
+         (observed : list vhost)
+         (fallback : option action)   (* what an authority nothing is configured for gets *)
+         (force : option string)      (* sniffed route "host:port": every request is for that host *)
+         (qs : list request)
 (* one gateway scenario (Gateways: name and server hosts of the shared HTTP port; VirtualServices
    oldest first) with the virtual hosts of the RouteConfiguration the real BuildHTTPRoutes
    produced for the router proxy *)
@@ -28,7 +31,7 @@ Inductive case :=
 (* the real SortVHostRoutes on a long route list *)
 | Sort (id : N) (input observed : list eroute) (tab : re_tab) (qs : list request).
 
-Definition case_id c := match c with Routes id _ _ _ _ _ => id | VHosts id _ _ _ _ _ => id
+Definition case_id c := match c with Routes id _ _ _ _ _ => id | VHosts id _ _ _ _ _ _ _ => id
   | GwHosts id _ _ _ _ _ _ => id | Sort id _ _ _ _ => id end.
 
 (* ---------------------------------------------------------------- decidable equalities *)
@@ -138,7 +141,7 @@ Definition no_re (_ _ : string) := false.   (* part B uses no regular expression
 Definition model_ok (c : case) : bool :=
   match c with
   | Routes _ cx rules obs _ _ => list_eqb eroute_eqb (compile cx rules) obs
-  | VHosts _ _ _ _ obs _ =>
+  | VHosts _ _ _ _ obs _ _ _ =>
       (* the assembly invariants hold on the output: re-running the name / domain deduplication
          over the observed virtual hosts removes nothing *)
       list_eqb vhost_eqb
@@ -155,10 +158,16 @@ Definition prop_ok (c : case) : bool :=
   | Routes _ cx rules obs tab qs =>
       forallb (fun q => wf_req q &&
                  option_eqb action_eqb (eval_routes (re_of tab) obs q) (vs_sem (re_of tab) cx rules q)) qs
-  | VHosts _ cx svcs vss obs qs =>
+  | VHosts _ cx svcs vss obs fallback force qs =>
       nodup_lower (flat_map vh_domains obs)
-      && forallb (fun q => wf_req q &&
-                   option_eqb action_eqb (eval_rc no_re obs q) (mesh_sem no_re cx svcs vss q)) qs
+      && forallb (fun q =>
+                   let q' := match force with
+                             | Some h => {| q_path := q_path q; q_query := q_query q; q_headers := q_headers q;
+                                            q_method := q_method q; q_authority := h; q_scheme := q_scheme q |}
+                             | None => q
+                             end in
+                   wf_req q &&
+                   option_eqb action_eqb (eval_rc no_re obs q) (mesh_sem no_re cx svcs vss fallback q')) qs
   | GwHosts _ cx gws vss obs tab qs =>
       forallb (fun q => wf_req q &&
                  option_eqb action_eqb (eval_rc (re_of tab) obs q) (gw_sem (re_of tab) cx gws vss q)) qs
